@@ -254,6 +254,33 @@ def evaluate(case):
                 if not ok:
                     raise Violation("same-element", op, f"{op} of two ndarray-backed operands with the same blades in key orders {ka} / {sh} "
                                     f"vs the list-backed ones: {why}", base=kd.show(base_[1]), other=kd.show(nd_[1]))
+    # the same independence for compiled (registered) functions: the operator itself, and grade selection applied directly to
+    # an argument, on base and variant storage
+    if r1[0] == "ok" and (op in EXACT_BIN or op in EXACT_UN) and not floaty and d <= 4 and len(ka2) <= 10 and (kb2 is None or len(kb2) <= 10) \
+            and op not in ("inv", "div", "sw", "proj"):
+        gsel = tuple(sorted({pc(k) for k in ka}))[:2] or (0,)
+        if kb is not None:
+            def f_op(a, b, _op=op):
+                return getattr(a, _op)(b)
+        else:
+            def f_op(a, _op=op):
+                return getattr(a, _op)()
+
+        def f_grade(a, _g=gsel):
+            return a.grade(*_g)
+        for what, fn, base_args, var_args, expd in (
+                (f"registered {op}", f_op, (x, y) if kb is not None else (x,), (x2, y2) if kb is not None else (x2,), r1[1]),
+                (f"registered grade{gsel} of the argument", f_grade, (x,), (x2,), {k: v for k, v in zip(ka, va) if pc(k) in gsel})):
+            reg = alg.register(fn)
+            for tag, args in (("base", base_args), ("variant", var_args)):
+                try:
+                    rg = kd.to_dict(reg(*args), op=op)
+                except Exception as e:
+                    raise Violation("same-element", op, f"{what} raised {type(e).__name__}: {e} on the {tag} storage ({desc})", exc="raise-mismatch")
+                ok, why = kd.elem_equal(rg, expd)
+                if not ok:
+                    raise Violation("same-element", op, f"{what} on the {tag} storage ({desc}): {why}", base=kd.show(expd), other=kd.show(rg))
+        counters["checked:registered"] = 1
     # anchor exact operators to the reference as well (excludes a common-mode error of all three calls)
     if r1[0] == "ok" and (op in EXACT_BIN or op in EXACT_UN):
         Rr = R(d, ref.T)
